@@ -52,6 +52,8 @@ CASES = [
     ('sort descending on 300 numbers with duplicates', 'a = []; for "_i" from 1 to 300 do { a pushBack (_i % 3) }; a sort false; [count a, a select 0, a select 150, a select 299]', '[300,2,1,0]'),
     ('sort descending on 300 equal strings', 'a = []; for "_i" from 1 to 300 do { a pushBack "x" }; a sort false; count a', '300'),
     ('sort ascending on 300 numbers with duplicates', 'a = []; for "_i" from 1 to 300 do { a pushBack (_i % 3) }; a sort true; [a select 0, a select 299]', '[0,2]'),
+    ('selectRandom of an empty array gives nil', 'isNil { selectRandom [] }', 'true'),
+    ('selectRandom of one element', 'selectRandom [5]', '5'),
 ]
 def search(sqfvm):
     for (name, code, want) in CASES:
